@@ -128,6 +128,18 @@ pub fn parse_cell(s: &str) -> Cell {
                 let t = if t == "-" { "" } else { t };
                 Cell::from(xeh::bitstr::BitvecBuilder::from_bin_str(t).unwrap())
             }
+            b'W' => {
+                // W<pre>.<post>.<bits>: the bits as a view into a longer buffer (junk bits before and after); the
+                // temporary whole buffer is dropped, so the view is the only owner and does not start at bit 0
+                let t = tok(b, pos);
+                let f: Vec<&str> = t.splitn(3, '.').collect();
+                let (pre, post): (usize, usize) = (f[0].parse().unwrap(), f[1].parse().unwrap());
+                let bits = if f[2] == "-" { "" } else { f[2] };
+                let junk = |n: usize| -> String { (0..n).map(|i| if i % 2 == 0 { '1' } else { '0' }).collect() };
+                let full = format!("{}{}{}", junk(pre), bits, junk(post));
+                let whole = xeh::bitstr::BitvecBuilder::from_bin_str(&full).unwrap();
+                Cell::from(whole.substr(pre, pre + bits.len()).unwrap())
+            }
             b'V' => {
                 *pos += 1;
                 let mut v = Xvec::new();
